@@ -169,17 +169,21 @@ def r16a(P, R):
             # `{` needs escaping only after `$`: one of its arms (or branches) escapes; the others must escape in every arm
             quant = any if ch == "{" else all
             ok = ch in explicit and quant(any(s.startswith("\\") for s in str_lits_in(a_["body"])) for a_ in explicit[ch])
+            if ch == "{" and not ok:
+                # look-ahead spelling of the same test: the `$` arm peeks at a following `{` and writes the escaped pair
+                ok = any(mentions_char(c_, "{") for c_ in brace_conditions(m)) and any(
+                    "\\{" in s_ for a_ in explicit.get("$", []) for s_ in str_lits_in(a_["body"]))
             R.check("R16-a", "js-template:%s" % CHNAME[ch], ok, "%r is escaped (%s)" % (ch, why),
                     "JsStringWriter::write has no escaping arm for %r (%s)" % (ch, why), loc=jw.loc())
         # the `{` escape must depend on the previous character being `$` and the flag must be updated from c == '$'
-        if "{" in explicit:
+        if "{" in explicit or "$" in explicit:
             R.check("R16-a", "js-template:dollar-flag", bool(brace_conditions(m)), "`{` is escaped only after `$`",
                     "the `{` arm is not conditional on the previous `$`", loc=jw.loc())
     # the `$` flag is recomputed from the current character alone (`$$` followed by `{` must still be escaped)
     flag_ids, cond_lits = set(), set()
     for m in ms:
         for c in brace_conditions(m):
-            flag_ids |= {x["local"] for x in subnodes(c) if x.get("k") == "Path" and "local" in x}
+            flag_ids |= {x["local"] for x in subnodes(c) if x.get("k") == "Path" and "local" in x and str(x.get("t", "")).lstrip("&") in ("bool", "char")}
             cond_lits |= {x.get("v") for x in subnodes(c) if x.get("k") == "Lit"}
     flag_assigns = [n for n in jw.walk() if n.get("k") == "Assign" and n["l"].get("k") == "Path" and n["l"].get("local") in flag_ids]
     if flag_ids:
@@ -209,6 +213,8 @@ def r16a(P, R):
             writers.append(f.path)
     allowed = {jw.path, P.fn("js_string_writer::JsStringWriter::new").path,
                P.fn("<sourcemap_writer::js_string_writer::JsStringWriter as core::ops::drop::Drop>::drop").path}
+    # a method that hands the buffer to the escaping function (and writes line breaks / indentation itself, as `write` always did)
+    allowed |= {w_ for w_ in writers if jw.path in P.reachable([P.fns[w_]])}
     R.check("R16-a", "js-template:buffer-owners", set(writers) <= allowed,
             "only new/write/drop touch the output buffer", "other functions write the JsStringWriter buffer unescaped: %s"
             % sorted(set(writers) - allowed))
@@ -220,14 +226,20 @@ def r16a(P, R):
             "Drop closes the template literal", "Drop for JsStringWriter does not push the closing backtick", loc=drop.loc())
 
 
+def mentions_char(e, ch):
+    return any(x.get("lk") == "char" and x.get("v") == ch for x in subnodes(e))
+
+
 def brace_conditions(m):
-    """conditions under which the `{` arm(s) of a char match escape: arm guards and `if` conditions in the arm body"""
+    """conditions under which `${` is neutralised in a char match: guards / `if`s of the `{` arm(s) (look-behind at `$`), or of a
+    `$` arm that looks ahead at `{`"""
     out = []
     for lits, guard, catch, arm in lit_table(m):
+        conds = ([arm["guard"]] if guard else []) + [i_["cond"] for i_ in subnodes(arm["body"]) if i_.get("k") == "If"]
         if "{" in lits:
-            if guard:
-                out.append(arm["guard"])
-            out.extend(i_["cond"] for i_ in subnodes(arm["body"]) if i_.get("k") == "If")
+            out.extend(conds)
+        elif "$" in lits:
+            out.extend(c_ for c_ in conds if mentions_char(c_, "{"))
     return out
 
 
@@ -449,8 +461,24 @@ def concrete_writers(P, scope, g, expr, depth=0):
     for n in g.walk():
         if n.get("k") == "Let" and n["pat"].get("k") == "Binding" and n["pat"].get("local") == lid and "init" in n:
             bufs = [y["local"] for y in subnodes(n["init"]) if y.get("k") == "Path" and "local" in y and "String" in norm(str(y.get("t", "")))]
-            return [(g, norm(str(n["pat"].get("t", ""))), bufs[0] if len(bufs) == 1 else None)]
+            return [(g, norm(str(n["pat"].get("t", ""))), bufs[0] if len(bufs) == 1 else None, n)]
     return []
+
+
+def branch_ctx(fn, node, idx=None):
+    """the match arms / if branches around a node, outermost first"""
+    if idx is None:
+        idx = [i for i, (x, _) in enumerate(fn.nodes()) if x is node]
+        idx = idx[0] if idx else None
+    if idx is None:
+        return ()
+    return tuple(reversed([(c_[0], id(c_[2] if c_[0] == "arm" else c_[1])) for c_ in enclosing_contexts(fn, idx) if c_[0] in ("arm", "if-then", "if-else")]))
+
+
+def compatible(a, b):
+    """two program points can lie on one path: neither sits in a branch that excludes the other"""
+    n = min(len(a), len(b))
+    return a[:n] == b[:n]
 
 
 def r16c(P, R):
@@ -556,11 +584,13 @@ def r16c(P, R):
             R.undecided("R16-d", "server-writer:%d" % i, "the writer `%s` the server schema is printed into could not be traced to where it is created" % wt, loc=g.loc())
             continue
         bad = []
-        for h, ty, buf in roots:
+        for h, ty, buf, let_ in roots:
             if "JsStringWriter" in ty:
                 continue
-            js_text = [l for x in h.walk() if x.get("k") == "MethodCall" and x.get("method") in ("push_str", "push", "write_str", "insert_str")
+            wctx = branch_ctx(h, let_)
+            js_text = [l for xi, (x, _) in enumerate(h.nodes()) if x.get("k") == "MethodCall" and x.get("method") in ("push_str", "push", "write_str", "insert_str")
                        and buf is not None and any(y.get("k") == "Path" and y.get("local") == buf for y in subnodes(x["recv"]))
+                       and compatible(branch_ctx(h, x, xi), wctx)
                        for l in str_lits_in(x) if "export " in l or "`" in l]
             if buf is None or js_text:
                 bad.append((h, ty, js_text))
